@@ -354,7 +354,8 @@ func paramType(p Param) reflect.Type {
 					tags = append(tags, fmt.Sprintf(`name:"%s"`, nameStr(f.Name)))
 				}
 				if f.Opt {
-					tags = append(tags, `optional:"true"`)
+					// every spelling strconv.ParseBool accepts as true
+					tags = append(tags, fmt.Sprintf(`optional:"%s"`, []string{"true", "1", "t", "T", "TRUE", "True"}[(i+f.Ty)%6]))
 				}
 			case "group":
 				g := groupStr(f.Group)
